@@ -66,6 +66,7 @@ class CallSite:
     kind: str                           # 'func' | 'ctor' | 'method' | 'builtin' | 'external' | 'builtin-method' | 'unresolved'
     ctor_class: Optional[str] = None
     name: str = ""
+    by_name: bool = False               # the receiver's class is not known: every repository class with a method of that name is a callee
 
 
 class Model:
@@ -463,7 +464,7 @@ class Model:
             for c in self.classes_with_method(f.attr):
                 cands.append(self.classes[c].methods[f.attr])
             if cands:
-                return CallSite(fi.qual, n, sorted(set(cands)), "method", name=f.attr)
+                return CallSite(fi.qual, n, sorted(set(cands)), "method", name=f.attr, by_name=len(set(cands)) > 1)
             return CallSite(fi.qual, n, [], "unresolved", name=core.src(f))
         return CallSite(fi.qual, n, [], "unresolved", name=core.src(f))
 
